@@ -1,7 +1,7 @@
 ------------------------------ MODULE ClientMC ------------------------------
 EXTENDS ClientScen
 CONSTANT Family
-ScenSet == IF Family = "K1" THEN {s \in K1 : SegOK(s)} ELSE K2
+ScenSet == IF Family = "K1" THEN {s \in K1 : SegOK(s)} ELSE IF Family = "K3" THEN K3 ELSE K2
 MCInit == \E S \in ScenSet : InitWith(S)
 Spec == MCInit /\ [][Next]_vars
 =============================================================================
